@@ -80,10 +80,10 @@ class C12Engine(SimEngine):
 
 
 def _sweep(tier: str):
-    from .simprop import close_overlap_family
-    cases = close_overlap_family(thin=8 if tier == "quick" else 1)
+    from .simprop import close_overlap_family, flush_raises_family
+    cases = close_overlap_family(thin=8 if tier == "quick" else 1) + flush_raises_family(thin=3 if tier == "quick" else 1)
     return ("close-overlap family: gather_and_close()/flush() blocked on a task in a slow callback while one of the other workers fails, "
-            "returns or is let go in every order (ticks a,b in 0..2, c in 0..1, gates k in 0..3, k2 in 0..2, both return_exceptions values)", cases, len(cases))
+            "returns or is let go in every order (ticks a,b in 0..2, c in 0..1, gates k in 0..3, k2 in 0..2, both return_exceptions values); plus the flush-raises family", cases, len(cases))
 
 
 def _engine() -> C12Engine:
